@@ -250,6 +250,7 @@ pub struct Local {
     pub violations: Vec<Violation>,
     pub extra: BTreeMap<&'static str, u64>,
     pub digest: u64,
+    pub bulk_distinct: u64,
     sample_cap: usize,
 }
 
@@ -267,6 +268,7 @@ impl Local {
             violations: Vec::new(),
             extra: BTreeMap::new(),
             digest: 0,
+            bulk_distinct: 0,
             sample_cap,
         }
     }
@@ -287,6 +289,13 @@ impl Local {
         if nontrivial {
             self.distinct.push(h);
         }
+    }
+    /// Dense sweeps whose inputs are distinct by construction: count without
+    /// storing a hash per input.
+    pub fn bulk(&mut self, evaluations: u64, nontrivial_distinct: u64, outcome: &'static str) {
+        self.evaluations += evaluations;
+        self.bulk_distinct += nontrivial_distinct;
+        *self.hist.entry(outcome).or_insert(0) += evaluations;
     }
     pub fn count(&mut self, key: &'static str, n: u64) {
         *self.extra.entry(key).or_insert(0) += n;
@@ -322,6 +331,7 @@ pub struct Report {
     pub subs: Mutex<Vec<SubStats>>,
     pub distinct: Mutex<HashSet<u64>>,
     pub distinct_capped: AtomicBool,
+    pub bulk_distinct: AtomicU64,
     pub samples: Mutex<Vec<Value>>,
     pub violations: Mutex<Vec<Violation>>,
     pub extra: Mutex<BTreeMap<String, u64>>,
@@ -345,6 +355,7 @@ impl Report {
             subs: Mutex::new(Vec::new()),
             distinct: Mutex::new(HashSet::new()),
             distinct_capped: AtomicBool::new(false),
+            bulk_distinct: AtomicU64::new(0),
             samples: Mutex::new(Vec::new()),
             violations: Mutex::new(Vec::new()),
             extra: Mutex::new(BTreeMap::new()),
@@ -436,6 +447,7 @@ impl Report {
                     |mut a, mut b| {
                         a.evaluations += b.evaluations;
                         a.digest = a.digest.wrapping_add(b.digest);
+                        a.bulk_distinct += b.bulk_distinct;
                         for (k, v) in b.hist {
                             *a.hist.entry(k).or_insert(0) += v;
                         }
@@ -461,6 +473,7 @@ impl Report {
         let before = self.distinct.lock().unwrap().len();
         self.merge_distinct(&mut merged.distinct);
         let after = self.distinct.lock().unwrap().len();
+        self.bulk_distinct.fetch_add(merged.bulk_distinct, Ordering::Relaxed);
         let mut hist: BTreeMap<String, u64> = merged.hist.iter().map(|(k, v)| (k.to_string(), *v)).collect();
         for (k, v) in merged.hist_dyn {
             *hist.entry(k).or_insert(0) += v;
@@ -482,7 +495,7 @@ impl Report {
             ord,
             cases: n,
             evaluations: merged.evaluations,
-            nontrivial: (after - before) as u64,
+            nontrivial: (after - before) as u64 + merged.bulk_distinct,
             exhaustive,
             note: note.into(),
             hist,
@@ -561,7 +574,7 @@ impl Report {
             }
         }
         let evaluations: u64 = subs.iter().map(|s| s.evaluations).sum();
-        let distinct = self.distinct.lock().unwrap().len() as u64;
+        let distinct = self.distinct.lock().unwrap().len() as u64 + self.bulk_distinct.load(Ordering::Relaxed);
         let all_exh = !subs.is_empty() && subs.iter().all(|s| s.exhaustive);
         let mut cov = serde_json::Map::new();
         cov.insert("evaluations".into(), json!(evaluations));
